@@ -3,25 +3,74 @@ From Yv Require Import Common.Base C05.Model C05.Spec.
 
 Local Open Scope N_scope.
 
-Lemma item_match_spec x i : item_match x i = true <-> ItemHas i x.
-Proof.
-  destruct i as [c|a b]; cbn [item_match ItemHas].
-  - apply N.eqb_eq.
-  - rewrite andb_true_iff, !N.leb_le. tauto.
-Qed.
-
-Lemma item_has_spec x i : item_has i x = true <-> ItemHas i x.
-Proof.
-  destruct i as [c|a b]; cbn [item_has ItemHas].
-  - rewrite N.eqb_eq. split; congruence.
-  - rewrite andb_true_iff, !negb_true_iff, !N.ltb_ge. tauto.
-Qed.
-
 Lemma existsb_iff {A} (f : A -> bool) (P : A -> Prop) l :
   (forall a, f a = true <-> P a) ->
   (existsb f l = true <-> exists a, In a l /\ P a).
 Proof.
   intros Hf. rewrite existsb_exists. split; intros (i & Hi & H); exists i; split; auto; apply Hf; auto.
+Qed.
+
+(* ---------------------------------------------------------------- items *)
+Lemma endpoint_first a c : atom_first a = Some c <-> Endpoint a c.
+Proof.
+  destruct a as [x|v|n]; cbn [atom_first Endpoint].
+  - split; [intros H; injection H; auto | intros ->; reflexivity].
+  - destruct v as [|h t].
+    + split; [discriminate | intros (r & H); discriminate].
+    + split; [intros H; injection H as ->; eauto | intros (r & H); injection H as -> _; reflexivity].
+  - split; [discriminate | intros []].
+Qed.
+
+Lemma endpoint_of_first a : endpoint_of a = atom_first a.
+Proof. destruct a as [x|[|h t]|n]; reflexivity. Qed.
+
+Lemma range_spec a b x :
+  match atom_first a, atom_first b with
+  | Some lo, Some hi => N.leb lo x && N.leb x hi
+  | _, _ => false
+  end = true <->
+  exists lo hi, Endpoint a lo /\ Endpoint b hi /\ lo <= x /\ x <= hi.
+Proof.
+  destruct (atom_first a) as [lo|] eqn:Ea.
+  - destruct (atom_first b) as [hi|] eqn:Eb.
+    + rewrite andb_true_iff, !N.leb_le. split.
+      * intros [H1 H2]. exists lo, hi. repeat split; auto; apply endpoint_first; auto.
+      * intros (lo' & hi' & H1 & H2 & H3 & H4). apply endpoint_first in H1, H2.
+        rewrite Ea in H1. rewrite Eb in H2. injection H1 as <-. injection H2 as <-. auto.
+    + split; [discriminate|]. intros (lo' & hi' & _ & H2 & _). apply endpoint_first in H2. congruence.
+  - split; [discriminate|]. intros (lo' & hi' & H1 & _). apply endpoint_first in H1. congruence.
+Qed.
+
+Lemma class_spec name x :
+  match class_pred name with Some f => f x | None => false end = true <->
+  exists f, class_pred name = Some f /\ f x = true.
+Proof.
+  destruct (class_pred name) as [f|].
+  - split; [eauto | intros (f' & E & H); injection E as <-; exact H].
+  - split; [discriminate | intros (f' & E & _); discriminate].
+Qed.
+
+Lemma item_match_spec x i : item_match x i = true <-> ItemHas i x.
+Proof.
+  destruct i as [[c|v|name]|a b]; cbn [item_match ItemHas].
+  - apply N.eqb_eq.
+  - destruct v as [|c [|d t]].
+    + split; discriminate.
+    + rewrite N.eqb_eq. split; [intros ->; reflexivity | intros H; injection H; auto].
+    + split; discriminate.
+  - apply class_spec.
+  - apply range_spec.
+Qed.
+
+Lemma item_has_spec x i : item_has i x = true <-> ItemHas i x.
+Proof.
+  destruct i as [[c|v|name]|a b]; cbn [item_has ItemHas].
+  - rewrite N.eqb_eq. split; congruence.
+  - apply str_eqb_eq.
+  - apply class_spec.
+  - rewrite (endpoint_of_first a), (endpoint_of_first b), <- range_spec.
+    destruct (atom_first a) as [lo|]; [|reflexivity]. destruct (atom_first b) as [hi|]; [|reflexivity].
+    rewrite !andb_true_iff, !negb_true_iff, !N.ltb_ge, !N.leb_le. tauto.
 Qed.
 
 Lemma bracket_match_spec compl items x :
@@ -50,11 +99,58 @@ Proof.
   - split; [discriminate | intros H; apply E in H; discriminate].
 Qed.
 
+(* ---------------------------------------------------------------- multi-character elements *)
+Lemma atom_multi_spec v : atom_multi (BColl v) = true <-> (2 <= length v)%nat.
+Proof.
+  destruct v as [|a [|b t]]; cbn [atom_multi length]; split; try discriminate; try lia; reflexivity.
+Qed.
+
+Lemma item_string_spec i v :
+  item_string i = Some v <-> i = IAtom (BColl v) /\ (2 <= length v)%nat.
+Proof.
+  destruct i as [[c|w|name]|a b]; cbn [item_string]; try (split; [discriminate | intros [H _]; discriminate]).
+  destruct (atom_multi (BColl w)) eqn:E.
+  - apply atom_multi_spec in E. split.
+    + intros H. injection H as <-. auto.
+    + intros [H _]. injection H as <-. reflexivity.
+  - split; [discriminate|]. intros [H L]. injection H as <-. apply atom_multi_spec in L. congruence.
+Qed.
+
+Lemma strip_prefix_app v s : strip_prefix v (v ++ s) = Some s.
+Proof. induction v as [|c v IH]; cbn [strip_prefix app]; [reflexivity|]. rewrite N.eqb_refl. exact IH. Qed.
+
+Lemma strip_prefix_spec v : forall s s', strip_prefix v s = Some s' -> s = v ++ s'.
+Proof.
+  induction v as [|c v IH]; intros s s' H; cbn [strip_prefix] in H.
+  - injection H as <-. reflexivity.
+  - destruct s as [|x s]; [discriminate|]. destruct (N.eqb x c) eqn:E; [|discriminate].
+    apply N.eqb_eq in E. subst. cbn [app]. f_equal. auto.
+Qed.
+
+Lemma firstn_length_app (v s : str) : firstn (length v) (v ++ s) = v.
+Proof. induction v as [|c v IH]; cbn [length firstn app]; [reflexivity|]. f_equal. exact IH. Qed.
+
+Lemma skipn_length_app (v s : str) : skipn (length v) (v ++ s) = s.
+Proof. induction v as [|c v IH]; cbn [length skipn app]; [reflexivity|]. exact IH. Qed.
+
 (* ---------------------------------------------------------------- amatch *)
 Lemma amatch_star p s :
   amatch (AStar :: p) s =
   amatch p s || match s with [] => false | _ :: s' => amatch (AStar :: p) s' end.
 Proof. destruct s; reflexivity. Qed.
+
+Lemma amatch_bracket compl items p s :
+  amatch (ABracket compl items :: p) s =
+  match s with x :: s' => bracket_match compl items x && amatch p s' | [] => false end
+  || (negb compl &&
+      existsb (fun i => match item_string i with
+                        | Some v => match strip_prefix v s with
+                                    | Some s' => amatch p s'
+                                    | None => false
+                                    end
+                        | None => false
+                        end) items).
+Proof. reflexivity. Qed.
 
 Lemma amatch_star_app p s1 s2 : amatch p s2 = true -> amatch (AStar :: p) (s1 ++ s2) = true.
 Proof.
@@ -65,11 +161,15 @@ Qed.
 
 Lemma amatch_complete p s : Matches p s -> amatch p s = true.
 Proof.
-  induction 1 as [|c p s _ IH|x p s _ IH|compl items x p s Hb _ IH|p s1 s2 _ IH].
+  induction 1 as [|c p s _ IH|x p s _ IH|compl items x p s Hb _ IH|items v p s Hin Hl _ IH|p s1 s2 _ IH].
   - reflexivity.
   - cbn [amatch]. rewrite N.eqb_refl, IH. reflexivity.
   - exact IH.
-  - cbn [amatch]. apply bracket_match_spec in Hb. rewrite Hb, IH. reflexivity.
+  - rewrite amatch_bracket. apply bracket_match_spec in Hb. rewrite Hb, IH. reflexivity.
+  - rewrite amatch_bracket. apply orb_true_iff. right. cbn [negb andb].
+    apply existsb_exists. exists (IAtom (BColl v)). split; [exact Hin|].
+    assert (item_string (IAtom (BColl v)) = Some v) as -> by (apply item_string_spec; auto).
+    rewrite strip_prefix_app. exact IH.
   - apply amatch_star_app, IH.
 Qed.
 
@@ -85,10 +185,17 @@ Proof.
       * rewrite amatch_star, orb_false_r in H. apply (M_star p [] []). auto.
       * rewrite amatch_star in H. apply orb_true_iff in H as [H|H].
         -- apply (M_star p [] (x :: s)). auto.
-        -- specialize (IHs H). inversion IHs as [| | | |p' s1 s2 Hm]; subst.
+        -- specialize (IHs H). inversion IHs as [| | | | |p' s1 s2 Hm]; subst.
            apply (M_star p (x :: s1) s2). exact Hm.
-    + destruct s as [|x s]; [discriminate|]. cbn [amatch] in H.
-      apply andb_true_iff in H as [E H]. apply bracket_match_spec in E. constructor; auto.
+    + rewrite amatch_bracket in H. apply orb_true_iff in H as [H|H].
+      * destruct s as [|x s]; [discriminate|].
+        apply andb_true_iff in H as [E H]. apply bracket_match_spec in E. constructor; auto.
+      * apply andb_true_iff in H as [Ec H]. destruct compl; [discriminate|].
+        apply existsb_exists in H as (i & Hin & H).
+        destruct (item_string i) as [v|] eqn:Ei; [|discriminate].
+        destruct (strip_prefix v s) as [s'|] eqn:Es; [|discriminate].
+        apply item_string_spec in Ei as [-> Hl]. apply strip_prefix_spec in Es. subst s.
+        apply M_coll; auto.
 Qed.
 
 Theorem amatch_spec p s : amatch p s = true <-> Matches p s.
@@ -99,16 +206,43 @@ Lemma omatch_star p s :
   omatch (AStar :: p) s = existsb (fun k => omatch p (skipn k s)) (seq 0 (S (length s))).
 Proof. reflexivity. Qed.
 
+Lemma omatch_step a p s :
+  a <> AStar ->
+  omatch (a :: p) s =
+  match s with x :: s' => atom_has a x && omatch p s' | [] => false end
+  || existsb (fun v => str_eqb (firstn (length v) s) v && omatch p (skipn (length v) s))
+             (coll_strings a).
+Proof. destruct a; try reflexivity. contradiction. Qed.
+
+Lemma in_coll_strings a v :
+  In v (coll_strings a) <->
+  exists items, a = ABracket false items /\ In (IAtom (BColl v)) items /\ (2 <= length v)%nat.
+Proof.
+  destruct a as [c| | |compl items]; cbn [coll_strings];
+    try (split; [intros [] | intros (it & E & _); discriminate]).
+  destruct compl; [split; [intros [] | intros (it & E & _); discriminate]|].
+  rewrite in_flat_map. split.
+  - intros (i & Hin & H). destruct i as [[c|w|n]|x y]; try destruct H.
+    destruct (Nat.leb 2 (length w)) eqn:E; [|destruct H]. destruct H as [<-|[]].
+    apply Nat.leb_le in E. exists items. auto.
+  - intros (it & E & Hin & Hl). injection E as <-. exists (IAtom (BColl v)). split; [exact Hin|].
+    apply Nat.leb_le in Hl. rewrite Hl. left; reflexivity.
+Qed.
+
 Lemma omatch_complete p s : Matches p s -> omatch p s = true.
 Proof.
-  induction 1 as [|c p s _ IH|x p s _ IH|compl items x p s Hb _ IH|p s1 s2 _ IH].
+  induction 1 as [|c p s _ IH|x p s _ IH|compl items x p s Hb _ IH|items v p s Hin Hl _ IH|p s1 s2 _ IH].
   - reflexivity.
-  - cbn [omatch atom_has]. rewrite N.eqb_refl, IH. reflexivity.
-  - cbn [omatch atom_has]. exact IH.
-  - cbn [omatch]. apply atom_has_bracket in Hb. rewrite Hb, IH. reflexivity.
+  - rewrite omatch_step by discriminate. cbn [atom_has]. rewrite N.eqb_refl, IH. reflexivity.
+  - rewrite omatch_step by discriminate. cbn [atom_has]. rewrite IH. reflexivity.
+  - rewrite omatch_step by discriminate. apply atom_has_bracket in Hb. rewrite Hb, IH. reflexivity.
+  - rewrite omatch_step by discriminate. apply orb_true_iff. right.
+    apply existsb_exists. exists v. split.
+    + apply in_coll_strings. exists items. auto.
+    + rewrite firstn_length_app, skipn_length_app, IH, andb_true_r. apply str_eqb_eq. reflexivity.
   - rewrite omatch_star. apply existsb_exists. exists (length s1). split.
     + apply in_seq. rewrite app_length. lia.
-    + rewrite skipn_app, skipn_all, Nat.sub_diag. cbn. exact IH.
+    + rewrite skipn_length_app. exact IH.
 Qed.
 
 Lemma omatch_sound p : forall s, omatch p s = true -> Matches p s.
@@ -116,13 +250,21 @@ Proof.
   induction p as [|a p IH]; intros s H.
   - destruct s; [constructor | discriminate].
   - destruct a as [c| | |compl items].
-    + destruct s as [|x s]; [discriminate|]. cbn [omatch atom_has] in H.
+    + rewrite omatch_step in H by discriminate. cbn [coll_strings existsb] in H.
+      rewrite orb_false_r in H. destruct s as [|x s]; [discriminate|]. cbn [atom_has] in H.
       apply andb_true_iff in H as [E H]. apply N.eqb_eq in E. subst x. constructor; auto.
-    + destruct s as [|x s]; [discriminate|]. cbn [omatch atom_has andb] in H. constructor; auto.
+    + rewrite omatch_step in H by discriminate. cbn [coll_strings existsb] in H.
+      rewrite orb_false_r in H. destruct s as [|x s]; [discriminate|]. cbn [atom_has andb] in H.
+      constructor; auto.
     + rewrite omatch_star in H. apply existsb_exists in H as (k & _ & H).
       rewrite <- (firstn_skipn k s). constructor. auto.
-    + destruct s as [|x s]; [discriminate|]. cbn [omatch] in H.
-      apply andb_true_iff in H as [E H]. apply atom_has_bracket in E. constructor; auto.
+    + rewrite omatch_step in H by discriminate. apply orb_true_iff in H as [H|H].
+      * destruct s as [|x s]; [discriminate|].
+        apply andb_true_iff in H as [E H]. apply atom_has_bracket in E. constructor; auto.
+      * apply existsb_exists in H as (v & Hv & H). apply andb_true_iff in H as [E H].
+        apply str_eqb_eq in E. apply in_coll_strings in Hv as (it & Eit & Hin & Hl).
+        injection Eit as -> <-. rewrite <- (firstn_skipn (length v) s), E.
+        apply M_coll; auto.
 Qed.
 
 Theorem omatch_spec p s : omatch p s = true <-> Matches p s.
